@@ -170,8 +170,7 @@ def _eps_paths(nfa: _NFA, src: int) -> dict[int, int]:
     return count
 
 
-def exponential_ambiguity(pattern, flags: int = 0):
-    """None when the pattern has no exponentially ambiguous loop; otherwise a short witness description."""
+def _edges_and_succ(pattern, flags):
     if isinstance(pattern, bytes):
         pattern = pattern.decode("latin-1")
     tree = sp.parse(pattern, flags)
@@ -194,6 +193,120 @@ def exponential_ambiguity(pattern, flags: int = 0):
             for j in by_src.get(s, ()):
                 d[j] = min(2, d.get(j, 0) + k)
         succ.append(d)
+    return E, succ
+
+
+def _sccs(nodes: dict):
+    """Tarjan, iterative: node -> component representative."""
+    index: dict = {}
+    low: dict = {}
+    onst: set = set()
+    st: list = []
+    comp: dict = {}
+    idx = 0
+    for root in nodes:
+        if root in index:
+            continue
+        stack = [(root, iter(nodes[root]))]
+        index[root] = low[root] = idx
+        idx += 1
+        st.append(root)
+        onst.add(root)
+        while stack:
+            v, it = stack[-1]
+            adv = False
+            for w in it:
+                if w not in nodes:
+                    continue
+                if w not in index:
+                    index[w] = low[w] = idx
+                    idx += 1
+                    st.append(w)
+                    onst.add(w)
+                    stack.append((w, iter(nodes[w])))
+                    adv = True
+                    break
+                if w in onst:
+                    low[v] = min(low[v], index[w])
+            if adv:
+                continue
+            stack.pop()
+            if stack:
+                low[stack[-1][0]] = min(low[stack[-1][0]], low[v])
+            if low[v] == index[v]:
+                while True:
+                    w = st.pop()
+                    onst.discard(w)
+                    comp[w] = v
+                    if w == v:
+                        break
+    return comp
+
+
+def polynomial_ambiguity(pattern, flags: int = 0):
+    """IDA (Weber & Seidl): two different loops, the second reachable from the first, that can both spell the word that also leads
+    from the first to the second (`\\S+.*x`: a run of n letters can be divided between the two repeats in n ways, and a failing
+    match tries them all: quadratic time). Decided on the triple product of the epsilon-free automaton: some (p, p, q), p != q,
+    reaches (p, q, q). None when there is no such pair; otherwise a witness description. Patterns with more than 40 character
+    edges are returned as undecided (the triple product grows with the cube)."""
+    E, succ = _edges_and_succ(pattern, flags)
+    n = len(E)
+    if n > 40:
+        raise Undecided("pattern too large for the triple product")
+    on_cycle = set()
+    # edges that can reach themselves
+    reach = [set(succ[i]) for i in range(n)]
+    changed = True
+    while changed:
+        changed = False
+        for i in range(n):
+            add = set()
+            for j in reach[i]:
+                add |= reach[j]
+            if not add <= reach[i]:
+                reach[i] |= add
+                changed = True
+    loops = [i for i in range(n) if i in reach[i]]
+    starts = [(p_, p_, q_) for p_ in loops for q_ in loops if p_ != q_ and q_ in reach[p_]]
+    if not starts:
+        return None
+    nodes: dict = {}
+    work = list(starts)
+    while work:
+        t = work.pop()
+        if t in nodes:
+            continue
+        a, b, c = t
+        out = []
+        for f1 in succ[a]:
+            for f2 in succ[b]:
+                cs12 = E[f1][1] & E[f2][1]
+                if not cs12:
+                    continue
+                for f3 in succ[c]:
+                    if cs12 & E[f3][1]:
+                        out.append((f1, f2, f3))
+        nodes[t] = out
+        work.extend(o for o in out if o not in nodes)
+        if len(nodes) > 200000:
+            raise Undecided("triple product too large")
+    for (p_, _p, q_) in starts:
+        tgt = (p_, q_, q_)
+        if tgt in nodes:
+            nodes[tgt] = nodes[tgt] + [(p_, p_, q_)]
+    comp = _sccs(nodes)
+    for (p_, _p, q_) in starts:
+        tgt = (p_, q_, q_)
+        if tgt in comp and comp[tgt] == comp[(p_, p_, q_)]:
+            common = sorted(E[p_][1] & E[q_][1])
+            ex = common[len(common) // 2] if common else "?"
+            return f"two repeats in a row can both consume the same run of characters (e.g. {ex!r}): n of them can be divided in n ways, and a failing match tries every division"
+    return None
+
+
+def exponential_ambiguity(pattern, flags: int = 0):
+    """None when the pattern has no exponentially ambiguous loop; otherwise a short witness description."""
+    E, succ = _edges_and_succ(pattern, flags)
     # product graph restricted to pairs reachable from a diagonal pair
     nodes: dict[tuple[int, int], list[tuple[int, int]]] = {}
     work = [(i, i) for i in range(len(E))]
